@@ -70,5 +70,14 @@ def optinOk (allowExt allowBuf : Bool) (is : List Instr) : Bool :=
 def countOk (mn mx : Nat) (is : List Instr) : Bool :=
   mn + 1 ≤ is.length && is.length ≤ 3 * (max mn mx) + 4
 
+/-- the hypothesis `ModsOK` of the end-to-end C04 theorem, as a check the driver runs on the module
+list it loads from `/repo/data/stdlib_complete.txt`: module and attribute names are newline-free and
+valid `escape_decode` + ASCII text -/
+def modsOk (mods : List (List UInt8 × List UInt8)) : Bool :=
+  mods.all fun p => !p.1.contains (0x0a : UInt8) && !p.2.contains (0x0a : UInt8) && Lex.escapeAsciiOk p.1 && Lex.escapeAsciiOk p.2
+
+/-- the hypothesis `FloatOK`, on one formatted float: newline-free and accepted by the FLOAT reader -/
+def floatOk (t : List UInt8) : Bool := !t.contains (0x0a : UInt8) && Lex.pyFloatOk t
+
 end Spec
 end PFV
